@@ -367,6 +367,8 @@ func (im *Impl) Exec(line string) (out string) {
 		return im.rbCompare()
 	case "csnap":
 		return im.rbSnapshot(w[1])
+	case "crevert":
+		return im.rbRevert(w[1])
 	case "killq":
 		off, n, tag := atoi(w[1]), atoi(w[2]), atoi(w[3])
 		if im.rep() == nil || off+n > im.nbUnits() {
